@@ -308,6 +308,12 @@ def main():
     rep.cov["script_runs"] = len(sjobs)
     rep.cov["rule"] = "one evaluation = one split of a module replayed through both generators, or one script-vs-API option combination"
     rep.sample({"module": " ".join(allc[0]["toks"])[:300], "endings": ENDINGS})
+    # executed: split modules generated the way the build does it, compiled, LINKED into one extension module, imported and
+    # driven through the plan PyCall computes for the whole module
+    import pysplitcheck
+    pysplitcheck.run(rep, thorough)
+    rep.assumptions += ["executed half: 'call' profile modules cut at 1-3 top-level declaration boundaries into a main and one additional "
+                        "file; cuts that put a derived class after its base's file are not judged (additional files are initialised first)"]
     return rep.finish()
 
 
